@@ -140,13 +140,32 @@ package idempotency
 //@ macro wroteNothing() = sentStatus == old(sentStatus) && sentBody == old(sentBody) && hdrCnt == old(hdrCnt) && hdrVal == old(hdrVal)
 //@ macro identicalToStored(k) = forallS(h, decHas(stored(k), h) ==> hdrCnt[h] == decCnt(stored(k), h) && forall(i, 0, decCnt(stored(k), h), hdrVal[h][i] == decHdr(stored(k), h, i)))
 
-//@ func New$1
+// (corrected after the conformance test of the assumed fasthttp contracts: (*ResponseHeader).Del does not keep the ORDER
+// of the values of the other names - mw_C17.spec. The replay used to delete and re-add name by name: a Del after the Adds of
+// an earlier name reversed that name's values (replay: c17 ReplayReordersValues, repair fix_4.diff: all stored names are
+// deleted first, delResponseHeaders; then the values are added - Add never moves a line). Headers that the stored response
+// does not name keep their number of values and their values as a multiset (hvBag, mw_C17.spec; their order is in fasthttp's hands): sameValues.)
+//@ macro sameValues(h) = hdrCnt[h] == old(hdrCnt[h]) && hvBag(hdrVal[h], hdrCnt[h]) == old(hvBag(hdrVal[h], hdrCnt[h]))
+// delResponseHeaders(c, headers): no header named in the map is left in the response; every other header keeps its
+// number of values and its values as a multiset (nothing else of the response is touched).
+//@ func delResponseHeaders
+//@   modifies hdrCnt, hdrVal
 //@   loop 1
-//@     invariant visited-replaced: forallS(h, seen(h) ==> indom(res.Headers, h) && hdrCnt[h] == len(res.Headers[h]) && forall(i, 0, len(res.Headers[h]), hdrVal[h][i] == res.Headers[h][i]))
-//@     invariant unvisited-untouched: forallS(h, !seen(h) ==> hdrCnt[h] == old(hdrCnt[h]) && hdrVal[h] == old(hdrVal[h]))
+//@     invariant visited-are-named: forallS(h, seen(h) ==> indom(headers, h))
+//@     invariant visited-deleted: forallS(h, seen(h) ==> hdrCnt[h] == 0)
+//@     invariant unvisited-same-values: forallS(h, !seen(h) ==> sameValues(h))
+//@   ensures named-headers-gone: forallS(h, indom(headers, h) ==> hdrCnt[h] == 0)
+//@   ensures other-headers-same-values: forallS(h, !indom(headers, h) ==> sameValues(h))
+//@ func New$1
+//@   atcall delResponseHeaders: of-this-response-the-stored-names: c == old(c) && headers == res.Headers
+//@   loop 1
+//@     invariant visited-restored: forallS(h, seen(h) ==> indom(res.Headers, h) && hdrCnt[h] == len(res.Headers[h]) && forall(i, 0, len(res.Headers[h]), hdrVal[h][i] == res.Headers[h][i]))
+//@     invariant unvisited-stored-still-empty: forallS(h, !seen(h) && indom(res.Headers, h) ==> hdrCnt[h] == 0)
+//@     invariant not-stored-same-values: forallS(h, !indom(res.Headers, h) ==> sameValues(h))
 //@   loop 2
-//@     invariant others-visited: forallS(h, h != header && seen(h) ==> indom(res.Headers, h) && hdrCnt[h] == len(res.Headers[h]) && forall(i, 0, len(res.Headers[h]), hdrVal[h][i] == res.Headers[h][i]))
-//@     invariant others-unvisited: forallS(h, !seen(h) ==> hdrCnt[h] == old(hdrCnt[h]) && hdrVal[h] == old(hdrVal[h]))
+//@     invariant others-restored: forallS(h, h != header && seen(h) ==> indom(res.Headers, h) && hdrCnt[h] == len(res.Headers[h]) && forall(i, 0, len(res.Headers[h]), hdrVal[h][i] == res.Headers[h][i]))
+//@     invariant others-stored-still-empty: forallS(h, !seen(h) && indom(res.Headers, h) ==> hdrCnt[h] == 0)
+//@     invariant not-stored-same-values: forallS(h, !indom(res.Headers, h) ==> sameValues(h))
 //@     invariant this-header-visited: seen(header) && indom(res.Headers, header) && vals == res.Headers[header]
 //@     invariant index-in-range: rangeindex < len(vals)
 //@     invariant this-header-count: hdrCnt[header] == rangeindex + 1
@@ -157,7 +176,7 @@ package idempotency
 //@   ensures hit-status: result0 && result1 == nil ==> sentStatus == decStatus(stored(key))
 //@   ensures hit-body: result0 && result1 == nil ==> sentBody == decBody(stored(key))
 //@   ensures hit-headers-same-as-original: result0 ==> identicalToStored(key)
-//@   ensures hit-adds-no-other-header: result0 ==> forallS(h, !decHas(stored(key), h) ==> hdrCnt[h] == old(hdrCnt[h]) && hdrVal[h] == old(hdrVal[h]))
+//@   ensures hit-adds-no-other-header: result0 ==> forallS(h, !decHas(stored(key), h) ==> sameValues(h))
 //@   ensures store-only-expires: stVal == old(stVal) && forallI(s, forallS(k, stHas[s][k] ==> old(stHas[s][k])))
 //@   ensures never-runs-handler: nextCalls == old(nextCalls)
 
@@ -177,7 +196,7 @@ package idempotency
 //@   ensures hit-status: result0 && result1 == nil ==> sentStatus == decStatus(stored(key))
 //@   ensures hit-body: result0 && result1 == nil ==> sentBody == decBody(stored(key))
 //@   ensures hit-headers-same-as-original: result0 ==> identicalToStored(key)
-//@   ensures hit-adds-no-other-header: result0 ==> forallS(h, !decHas(stored(key), h) ==> hdrCnt[h] == old(hdrCnt[h]) && hdrVal[h] == old(hdrVal[h]))
+//@   ensures hit-adds-no-other-header: result0 ==> forallS(h, !decHas(stored(key), h) ==> sameValues(h))
 //@   ensures store-only-expires: forallI(s, forallS(k, stHas[s][k] ==> old(stHas[s][k])))
 
 // ---------------------------------------------------------------------------------------------
